@@ -13,7 +13,7 @@
 (***************************************************************************)
 EXTENDS QueryRef, Json
 
-CONSTANTS MaxTokLen, MaxDict, Family, MaxTerms, MaxTextLen   \* Family \in {"glob", "match", "infix", "mb", "range"}
+CONSTANTS MaxTokLen, MaxDict, Family, MaxTerms, MaxTextLen   \* Family \in {"glob", "match", "infix", "mb", "range", "rangefull"}
 
 VARIABLES dict, layout, tok
 vars == <<dict, layout, tok>>
@@ -129,12 +129,16 @@ RangeRef(D, r) == {D[t] : t \in {x \in 1..Len(D) : InRange(r, D[x])}}
 
 \* ---------------------------------------------------------------- case walk
 NoTok == [k |-> "none"]
-DictU == IF Family = "range" THEN NumPalette ELSE Strs(MaxTokLen)
+\* family "rangefull": the whole numeric palette as ONE sorted dictionary (in one block and in blocks of 7) x every range: the
+\* members of a numeric interval are then scattered over the bytewise-sorted dictionary ("1" < "10" < "2"; "-1" < ".5" < "1"),
+\* separated by tokens outside the interval and by tokens that are no numbers at all
+RangeFam == Family \in {"range", "rangefull"}
+DictU == IF RangeFam THEN NumPalette ELSE Strs(MaxTokLen)
 Init == dict = <<>> /\ layout = <<>> /\ tok = NoTok
 \* family "match": the whole token universe as one dictionary, in one block and in blocks of 7
 Blocks7(n) == [k \in 1..((n + 6) \div 7) |-> IF 7 * k <= n THEN 7 ELSE n - 7 * (k - 1)]
 PickDict == /\ dict = <<>>
-            /\ IF Family \in {"match", "infix"}
+            /\ IF Family \in {"match", "infix", "rangefull"}
                  THEN /\ dict' = SortedSeq(DictU)
                       /\ layout' \in {<<Cardinality(DictU)>>, Blocks7(Cardinality(DictU))}
                  ELSE \E D \in {X \in SUBSET DictU : Cardinality(X) \in 1..MaxDict} :
@@ -142,7 +146,7 @@ PickDict == /\ dict = <<>>
                         /\ \E lay \in Comps(Cardinality(D)) : layout' = lay
             /\ UNCHANGED tok
 Ask == /\ dict # <<>> /\ tok = NoTok
-       /\ IF Family # "range"
+       /\ IF ~RangeFam
             THEN \E p \in Patterns : tok' = [k |-> "lit", terms |-> p]
             ELSE \E lo \in Ends, hi \in Ends, il \in BOOLEAN, ih \in BOOLEAN :
                    tok' = [k |-> "rng", lo |-> lo, hi |-> hi, ilo |-> il, ihi |-> ih]
